@@ -74,6 +74,7 @@ fn main() {
         "worker_books" => worker::books(&args),
         "worker_fates" => worker::fates(&args),
         "factory_step" => worker::factory_step(&args),
+        "factory_finished" => worker::factory_finished(&args),
         "routing" => routing::run(&args),
         "outport" => outport::run(&args),
         "rpc" => rpc::run(&args),
